@@ -124,9 +124,32 @@ def make_work(judge, *, getters=("short", "long"), conform_rate=0,
     return work
 
 
+def real_backend_wrong(ctx, tally, why):
+    """A conformance disagreement: decide WHO is wrong.  The item is re-run in
+    shadow mode (the real cbc answers, every answer is audited by substituting
+    it into the rows and bounds of the MPS file and by comparing its objective
+    with the exact enumeration).  If the real back end returned an infeasible
+    point under 'Optimal', a sub-optimal value, or 'Infeasible' although a
+    checked witness exists, the disagreement is the real CBC's defect (recorded
+    in the evidence, with the instance); the environment model stays bound.
+    Anything else is a harness error."""
+    lprun.run_solver(ctx.text, ctx.tail, None, real="shadow", getters=("short",))
+    lprun.wipe_tmpfiles()
+    verdicts = list(fakecbc.SHADOW)
+    fakecbc.install()
+    if any(v.startswith("MODEL-WRONG") for v in verdicts) or \
+            not any(v.startswith("real-wrong") for v in verdicts):
+        raise HarnessError("conformance: %s; audit of the real answers: %r; %r\n%s"
+                           % (why, verdicts, ctx.tail, ctx.text))
+    tally.inc("real_cbc_wrong_answers")
+    tally.add("real_cbc_wrong", (ctx.text, " ".join(ctx.tail),
+                                 next(v for v in verdicts if v.startswith("real-wrong"))), cap=50)
+
+
 def conform(ctx, execs, tally):
     """Re-run the item with the real CBC 2.10.3 and the real clock.  A
-    disagreement means the environment model is wrong: harness error."""
+    disagreement means the environment model is wrong (harness error) - unless
+    the audit shows that the real back end's answer is itself wrong."""
     real = lprun.run_solver(ctx.text, ctx.tail, None, real=True,
                             getters=("short",))
     lprun.wipe_tmpfiles()
@@ -138,15 +161,14 @@ def conform(ctx, execs, tally):
     rtext = lpcheck.get_output(real, "short")
     if rexc is not None or not isinstance(rtext, str):
         if rexc not in fexcs:
-            raise HarnessError("conformance: real run raised %r, model %r; %r %r"
-                               % (rexc, fexcs, ctx.tail, ctx.text))
+            return real_backend_wrong(ctx, tally, "real run raised %r, model %r" % (rexc, fexcs))
         tally.inc("traces_validated")
         return
     rd = lprun.parse_results(rtext)
     statuses = {(e.short or {}).get("pulp_status") for e in execs if e.short}
     if rd.get("pulp_status") not in statuses:
-        raise HarnessError("conformance: real status %r, model %r; %r\n%s"
-                           % (rd.get("pulp_status"), statuses, ctx.tail, ctx.text))
+        return real_backend_wrong(ctx, tally, "real status %r, model %r" % (
+            rd.get("pulp_status"), statuses))
     junk = any(str(x.get("answer", "")).startswith(("Infeasible", "reject", "fault"))
                for x in (fake0.obs["solves"] or []))
     if "matching" in rd and not junk:
@@ -155,9 +177,9 @@ def conform(ctx, execs, tally):
         want = lprun.mask_times(rtext)
         texts = {lprun.mask_times(e.short_text) for e in execs if e.short_text}
         if want not in texts:
-            raise HarnessError(
-                "conformance: real CBC result not among the %d explored leaves; "
-                "%r\n%s\nreal:\n%s" % (len(texts), ctx.tail, ctx.text, rtext))
+            return real_backend_wrong(
+                ctx, tally, "real CBC result not among the %d explored leaves:\n%s" % (
+                    len(texts), rtext))
     tally.inc("traces_validated")
 
 
@@ -258,6 +280,9 @@ def run_lp_check(pid, level, tier, judge, rule, *, getters=("short", "long"),
         "projection_certificate_failed_items": c.get("projection_certificate_failed_items", 0),
         "solves_delegated_to_real_cbc_not_enumerated": c.get("solves_delegated_to_real_cbc", 0),
         "conformance_runs_real_cbc": c.get("conformance_runs", 0),
+        "real_cbc_answers_proved_wrong_by_audit": c.get("real_cbc_wrong_answers", 0),
+        "real_cbc_wrong_answer_cases": [list(x) for x in
+                                        sorted(tally.sets.get("real_cbc_wrong", ()))[:5]],
         "sentinel_rechecks_from_non_initial_process_state": c.get("sentinel_rechecks", 0),
         "interleaved_two_solver_histories": c.get("interleaved_histories", 0),
         "families": desc,
